@@ -42,7 +42,7 @@ INLINE_OK = re.compile(r'^(?:_ZNK?St15basic_streambuf|_ZNSt11char_traitsIcE|_ZSt
                        r'_ZNK?9__gnu_cxx17__normal_iterator|_ZN9__gnu_cxx(?:eq|ne|lt|mi)|_ZSt9addressof|_ZSt11__addressof|_ZNK?St6chrono|_ZNSt5ratio|_ZNSt6chrono|_ZSt(?:mi|pl|lt|gt|ge|le|eq|ne)[IR]?.*St6chrono|'
                        r'_ZSt3getI|_ZNSt5tupleI|_ZNSt11_Tuple_impl|_ZNSt10_Head_base|_ZSt12__get_helper|_ZSt4swapI|'
                        r'_ZNK?St6atomic|_ZNK?St13__atomic_base|_ZStanSt12memory_order|_ZSt23__cmpexch_failure_order|_ZNSt15__new_allocator|_ZNSaI|_ZNKSaI|_ZNSt16allocator_traits|_ZNSt19__ptr_traits|_ZSt12__to_address|'
-                       r'_ZSt8distanceI|_ZSt10__distanceI|_ZSt19__iterator_category|_ZNSt14pointer_traits)')
+                       r'_ZNSt14numeric_limits|_ZSt8distanceI|_ZSt10__distanceI|_ZSt19__iterator_category|_ZNSt14pointer_traits)')
 
 def sel_mark(text, keep_noinline, extra_inline=None, std_too=True, marked_out=None):
     """sel mode: add noinline to every std::/__gnu_cxx:: function definition except whitelisted helpers and to the
